@@ -250,7 +250,11 @@ def build_program(pt, abi, specs: Specs, t, vseed, probes, backend):
             state["arg"] += 1
             elem = cur[pt.Btoi(pt.Txn.application_args[a])]
         style = p.styles[j]
-        if style == "use":
+        if style == "use2" and j == len(p.steps) - 1:
+            # ONE element object consumed at two places that do not run one after the other: both arms of an If whose condition is
+            # false at run time (the arm built first never runs)
+            return pt.If(pt.Txn.application_args.length() == pt.Int(77)).Then(elem.use(lambda x: nav(x, p, j + 1))).Else(elem.use(lambda x: nav(x, p, j + 1)))
+        if style in ("use", "use2"):
             return elem.use(lambda x: nav(x, p, j + 1))
         out = elem.produced_type_spec().new_instance()
         first = elem.store_into(out) if style == "store_into" else out.set(elem)
@@ -432,7 +436,7 @@ def min_len_at(t, values, steps):
     return best
 
 
-STYLES = ["store_into", "store_into", "set", "use"]
+STYLES = ["store_into", "store_into", "set", "use", "use2"]
 
 
 def gen_probes(r, abi, spec, t, values, exhaustive_first_level: bool, n_random: int, max_depth=4):
